@@ -31,15 +31,16 @@ STUB = ["event loop (SimLoop)", "transport (SimTransport with fail tape)"]
 ASSUMPTIONS = ["reference model is the oracle", "faults only on presentation-request writes"]
 REQUIRED_PROBES = ["second_reject_same_node", "rearm_after_presentation", "request_write_failed",
                    "retry_after_failed_write", "two_nodes_independent", "missing_child_on_known_node",
-                   "child_presentation_unknown_node", "no_request_under_1x", "internal_report_unknown_node"]
+                   "child_presentation_unknown_node", "no_request_under_1x", "internal_report_unknown_node",
+                   "version_report_during_episode"]
 ASPECTS = ("writes.pres", "outcome")
 
-SHORT = ["1;0;1;0;2;x\n", "1;255;0;0;17;{v}\n", "2;3;2;0;0;\n", "2;255;0;0;17;{v}\n", "1;255;3;0;0;50\n",
+SHORT = ["0;255;3;0;2;{v}\n", "1;0;1;0;2;x\n", "1;255;0;0;17;{v}\n", "2;3;2;0;0;\n", "2;255;0;0;17;{v}\n", "1;255;3;0;0;50\n",
          "1;4;0;0;3;child\n", "2;255;3;0;11;name\n", "1;255;4;0;0;ab\n", "1;0;0;0;3;c\n"]
 
 
 def budget(tier):
-    return 4000 if tier == "quick" else 3 * 4 * G.short_history_count(len(SHORT), 4) + 100_000
+    return 12000 if tier == "quick" else 3 * 4 * G.short_history_count(len(SHORT), 4) + 100_000
 
 
 def wall(tier):
@@ -65,7 +66,7 @@ def gen(seed: int, i: int, tier: str) -> dict:
         proto = G.PROTOS_2X[i // (4 * nshort)]
         fp = (i // nshort) % 4
         short = G.short_history(i % nshort, SHORT, 4)
-    elif tier == "quick" and i < 1500:
+    elif tier == "quick" and i < 4000:
         proto = rng.choice(G.PROTOS)
         fp = rng.randrange(4)
         short = G.short_history(rng.randrange(nshort), SHORT, 4)
@@ -88,6 +89,9 @@ def gen(seed: int, i: int, tier: str) -> dict:
             ops.append(["line", rng.choice(kinds(rng, proto, n, rng.choice([0, 1, 7])))])
         if rng.random() < 0.05:
             ops.append(["relisten"])
+        if rng.random() < 0.08:
+            # the gateway reports its (unchanged) version / presents itself again: episodes of other nodes go on
+            ops.append(["line", rng.choice([f"0;255;3;0;2;{proto}\n", f"0;255;0;0;18;{proto}\n"])])
     fails = [rng.choice([0, 0, 0, 1, 2]) for _ in range(rng.randint(0, 6))] if rng.random() < 0.6 else []
     lat = [rng.choice([0, 1]) for _ in range(8)] if rng.random() < 0.3 else []
     return {"cfg": {"pin": proto}, "ops": ops, "tapes": {"w.fail.pres": fails, "w.lat": lat}}
@@ -106,6 +110,8 @@ def run(scn):
         n, c, cmd, t = int(parts[0]), int(parts[1]), int(parts[2]), int(parts[4])
         pres_writes = [(ln, ok) for ln, ok in obs.writes if ln.split(";")[2] == "3" and ln.split(";")[4] == "19"]
         rejected = obs.kind == "err" and obs.cls in ("MissingNodeError", "MissingChildError", "TransportFailedError")
+        if n == 0 and (cmd == 0 or (cmd == 3 and t == 2)) and model.pres_outstanding:
+            res.probes["version_report_during_episode"] += 1
         if cmd == 0 and c == 255:
             if st["rejects"].get(n):
                 st["presented_after_reject"].add(n)
